@@ -42,7 +42,7 @@ ASSUMPTIONS = [
 ]
 
 TIERS = {
-    "quick":    {"runs": 8000,  "chunk": 250,  "hash_seeds": [0], "max_steps": 16, "timeout": 900},
+    "quick":    {"runs": 5000,  "chunk": 160,  "hash_seeds": [0], "max_steps": 16, "timeout": 900},
     "thorough": {"runs": 160000, "chunk": 2500, "hash_seeds": [0], "max_steps": 30, "timeout": 3400},
     "selftest": {"runs": 128,   "chunk": 16,   "hash_seeds": [0], "max_steps": 16, "timeout": 300},
 }
